@@ -203,6 +203,62 @@ def explore(n, funcs, index, enums, vocab):
     return res
 
 
+VALUE_WORDS = ["0", "+0", "-0", "5", "+5", "-5", "007", "+18446744073709551615", "-18446744073709551615", "18446744073709551616", "5k", "+5M", "-1G", "3c", "2w", "1b", "", "+", "k", "5 ", " 5"]
+
+
+def explore_values(funcs, index, enums):
+    """C14: the operand text -> (comparison, N[, unit]) conversion, from MIR, on a symbolic word of VALUE_WORDS"""
+    res = {"kind": "operand values", "paths": 0, "checks": 0, "violations": [], "unsupported": {}, "samples": []}
+    m = Machine(funcs, index, enums, models, natives=natives(), max_steps=2000000)
+    w = z3.Int("word")
+    both = z3.Bool("with_suffix")
+    m.base_constraints = [w >= 0, w < len(VALUE_WORDS)]
+    m.pending = [[]]
+    t0 = time.time()
+    while m.pending:
+        m.reset_path(m.pending.pop())
+        try:
+            suffix = m.decide(both)
+            fn = "convert_arg_to_comparable_value_and_suffix" if suffix else "convert_arg_to_comparable_value"
+            r = m.call(fn, [RStr("-size" if suffix else "-links"), RStr(sym=w, vocab=VALUE_WORDS)])
+        except RustPanic as e:
+            res["violations"].append({"what": "panic: " + str(e)[:80]})
+            res["paths"] += 1
+            continue
+        except Unsupported as e:
+            res["unsupported"][str(e)[:100]] = res["unsupported"].get(str(e)[:100], 0) + 1
+            continue
+        except PathAbort:
+            continue
+        res["paths"] += 1
+        s = z3.Solver()
+        for c in m.base_constraints + m.pc: s.add(c)
+        while s.check() == z3.sat:
+            mod = s.model()
+            i = mod.eval(w, model_completion=True).as_long()
+            s.add(w != i)
+            word = VALUE_WORDS[i]
+            res["checks"] += 1
+            mo = re.fullmatch(r"([+-]?)([0-9]+)(.*)", word, flags=re.S)
+            want = None
+            if mo and int(mo.group(2)) < 2 ** 64 and (suffix or mo.group(3) == ""):
+                want = ({"+": "MoreThan", "-": "LessThan", "": "EqualTo"}[mo.group(1)], int(mo.group(2)), mo.group(3))
+            if r.variant == "Ok":
+                v = r.fields[0]
+                cv, unit = (v.fields[0], text_of(m, v.fields[1])) if suffix else (v, "")
+                got = (cv.variant, cv.fields[0], unit)
+            else:
+                got = None
+            if got != want:
+                res["violations"].append({"what": "%s(%r) = %r, expected %r" % (fn, word, got, want)})
+            if len(res["samples"]) < 3 and got and got[2]:
+                res["samples"].append({"word": word, "parsed": list(got)})
+    res["wall_s"] = round(time.time() - t0, 2)
+    res["solver_calls"] = m.stats["solver_calls"]
+    res["functions_executed"] = sorted(m.executed)
+    return res
+
+
 PAIR_VOCAB = PRIMS + NEWER_JUNK + OPERANDS + OTHERS
 
 
@@ -210,6 +266,10 @@ if __name__ == "__main__":
     n = int(sys.argv[1]) if len(sys.argv) > 1 else 2
     text = open(sys.argv[2]).read() if len(sys.argv) > 2 else None
     funcs, index, enums, secs, _ = loader.load(os.environ.get("FINDUTILS_REPO", "/repo"), text)
+    if n == 0:
+        r = explore_values(funcs, index, enums)
+        print(json.dumps({k: r[k] for k in ("kind", "paths", "checks", "unsupported", "samples")}), len(r["violations"]), [v["what"] for v in r["violations"][:8]])
+        sys.exit(0)
     r = explore(n, funcs, index, enums, PAIR_VOCAB)
     v = r.pop("violations")
     print(json.dumps({k: r[k] for k in ("tokens", "paths", "accepting_paths", "sentences_checked", "solver_calls", "wall_s", "unsupported")})[:1200])
